@@ -47,7 +47,7 @@ pub fn gen(tier: &str, seed: u64) -> Gen {
     let ks = kinds();
     let mut cases = Vec::new();
     let thorough = tier == "thorough";
-    let argpool = ["1", "two words", "", "{", "$x", "[rec no]", "é", "a;b"];
+    let argpool = ["1", "two words", "", "{", "$x", "[rec no]", "é", "a;b", "}{", "x}y{z", "a\\"];
     // all parameter lists of length <= 3 (quick) / 4 (thorough) x arities 0..n+2
     let maxlen = if thorough { 4 } else { 3 };
     let mut lists: Vec<Vec<usize>> = vec![vec![]];
@@ -127,5 +127,11 @@ pub fn run(case: &Term) -> Term {
     }
     let leftover = obs_result(&interp.eval("info vars"));
     let _ = leftover;
-    tl(vec![obs_result(&rdef), obs_result(&rcall), tl(calls), Term::Int(level as i128), iargs, ibody, tl(idefs)])
+    // a wrong-arity call, then the procedure is renamed and called again: the message must name
+    // the command as it is called now
+    let _ = interp.eval("p w 2 3 4 5 6 7 8");
+    let _ = interp.eval("rename p q9");
+    let r8 = obs_result(&interp.eval("q9 w 2 3 4 5 6 7 8"));
+    let r0 = obs_result(&interp.eval("q9"));
+    tl(vec![obs_result(&rdef), obs_result(&rcall), tl(calls), Term::Int(level as i128), iargs, ibody, tl(idefs), tl(vec![r8, r0])])
 }
